@@ -1359,6 +1359,13 @@ def simplify(t):
     if k in ("and", "or"):
         a, b = simplify(t[1]), simplify(t[2])
         return (k, a, b)
+    if k == "ite":
+        cnd, a, b = simplify(t[1]), simplify(t[2]), simplify(t[3])
+        if cnd[0] == "c":
+            return a if cnd[1] else b
+        if a == b:
+            return a
+        return ("ite", cnd, a, b)
     return tuple([k] + [simplify(x) if isinstance(x, tuple) else x for x in t[1:]])
 
 
